@@ -39,6 +39,14 @@ claim("C07", "HIR field-flow coverage against struct definitions + abstract Opti
       "both absent an error); every skip_serializing_if field is Option or defaulted.",
       "JSON-level equality of arbitrary properties/custom maps (serde flatten collisions); serde round trip of the individual field types.", "DESIGN.md §7 C07")
 
+claim("C03", "HIR structural dominance + argument provenance + comparison-role normalisation + MIR success-edge dominance",
+      "Decides on every path of JwtPresentationValidator::validate and CoreDocument::verify_jws: Ok is dominated by verify_jws ✓ on the holder parameter with the configured verifier options "
+      "and the validator's own verifier; claims are parsed from the verified payload; CoreDID::from_str(claims.iss) ✓ and whole-DID equality with holder.id() dominate; expiry (absent or ≥ bound) and "
+      "issuance (absent or ≤ bound; present whenever iat OR nbf is) checks are unconditional `?` statements with the right comparison roles; every returned value derives from the verified claims / "
+      "protected header; verify_jws: full nonce equality dominates, query = configured method id or protected kid, resolved on self in options.method_scope, verify(verifier, that key) returned; "
+      "DIDUrlQuery::matches requires DID equality when present and both fragments equal.",
+      "truth of the conjunction on concrete tokens (with C01, C10, C13); first-match semantics of resolve_method.", "DESIGN.md §7 C03")
+
 for _p, _r in {
     "C01": "rules not yet implemented in this revision (planned, DESIGN §7)", "C02": "rules not yet implemented in this revision",
     "C03": "rules not yet implemented in this revision", "C04": "rules not yet implemented in this revision",
